@@ -51,6 +51,10 @@ def clause_props(K, clause, cfg):
     elif clause == "F.operands_not_mutated":
         # no call changes an existing secret object (its value or its wire expression) or a shared constant in place
         out = set(K.fprops) | ({"C04"} if ("C05" in K.vprops or "C14" in K.vprops or "C03" in K.vprops) else set())
+        if "C05" in K.vprops:
+            out.add("C05")        # an operand changed in place makes every LATER operation on it return a different value
+        if "C14" in K.vprops:
+            out.add("C14")
     elif clause.startswith("F."):
         out = set(K.fprops)
     if mode in GUARDED and clause[:2] in ("C.", "S.", "E.", "V.", "R.") and K.guard_relevant:
